@@ -6,6 +6,7 @@
 //! trusted: R15 (statement slicing): handle_claimable_htlc works under the claimable_payments mutex with events and HashMap entries; the unit extracts the `let claim_deadline = Some(match <min of part expiries> {..} - HTLC_FAIL_BACK_BUFFER)` statement verbatim (the `.iter().map(..).min()` chain rewritten by R6 into a loop) as a function of the part list; ClaimableHTLC skeleton {mpp_part}
 //! trusted: R15 (deep slice): inbound_payment::verify decrypts and authenticates the payment secret (ChaCha20/HMAC, outside the verifier); the unit extracts its two final tests (total_msat against the amount and the expiry against the highest seen block time) verbatim as a function of the decoded (min_amt_msat, expiry); decoding those two numbers from the decrypted bytes is covered by the Kani harness h_info_bytes; FinalOnionHopData skeleton
 //! trusted: R15: claim_payment_internal: the unit extracts the amount re-check (the loop over the parts and the two abort tests, conditions captured) verbatim as a function of the part list; begin_claiming_payment before it and the per-channel claims after it are dropped and not claimed; R6: `for htlc in sources.iter()` becomes an index loop
+//! trusted: R15 (deep slice): ClaimablePayments::begin_claiming_payment: the custom-TLV refusal test verbatim (the `.iter().any(|(typ, _)| P)` becomes an index loop carrying P, R6)
 //! assume: representation invariant of an accumulating payment: the intended sum already held is < MAX_VALUE_MSAT, every part's intended value < MAX_VALUE_MSAT, the sum of received values fits u64; timer_ticks < 255; cltv_expiry >= HTLC_FAIL_BACK_BUFFER (implied by acceptance)
 use vstd::prelude::*;
 verus! {
@@ -348,6 +349,34 @@ pub open spec fn parts_of(s: Seq<ClaimableHTLC>) -> Seq<MppPart> { Seq::new(s.le
     claimable_amt_msat != expected_amt_msat.unwrap()
 //@with
     claimable_amt_msat > expected_amt_msat.unwrap()
+//@end
+
+// ---- claiming: a payment carrying unknown even custom TLVs is not claimed unless the user says it understands them (deep R15 slice of begin_claiming_payment) ----
+//@extract lightning/src/ln/channelmanager.rs :: impl ClaimablePayments :: fn begin_claiming_payment
+//@slice R15
+    let custom_tlvs = &payment.onion_fields.custom_tlvs; if !custom_tlvs_known && custom_tlvs.iter().any(|(typ, _)| $even) { $rej:any return Err(payment.htlcs); }
+//@with
+    fn claim_refused_for_custom_tlvs(custom_tlvs: &Vec<(u64, Vec<u8>)>, custom_tlvs_known: bool) -> bool {
+        !custom_tlvs_known && { // R6: custom_tlvs.iter().any(|(typ, _)| P)
+            let mut __any = false; let mut __i: usize = 0;
+            while __i < custom_tlvs.len() && !__any
+                invariant __i <= custom_tlvs@.len(), __any <==> exists|k: int| 0 <= k < __i && (#[trigger] custom_tlvs@[k]).0 % 2 == 0,
+                decreases custom_tlvs@.len() - __i + (if __any { 0int } else { 1int })
+            {
+                let typ = &custom_tlvs[__i].0;
+                if $even { __any = true; }
+                __i = __i + 1;
+            }
+            __any
+        }
+    }
+//@ret r
+//@ensures P C04 a-payment-with-an-unknown-even-custom-tlv-is-failed-back-instead-of-claimed-unless-the-caller-vouches-for-its-tlvs
+    r <==> (!custom_tlvs_known && exists|k: int| 0 <= k < custom_tlvs@.len() && (#[trigger] custom_tlvs@[k]).0 % 2 == 0),
+//@mutant odd_rule_inverted
+    typ % 2 == 0
+//@with
+    typ % 2 == 1
 //@end
 
 // ---- the stateless invoice check: amount and expiry tests of inbound_payment::verify (deep R15 slice) ----
